@@ -296,8 +296,15 @@ static _Bool p_live_after_flush(const struct cat_object *s, cat_state t)
         case CAT_STATE_AFTER_FLUSH_FORMAT_TEST_ARGS:
                 return p_cmd_in_table(s->cmd);
         case CAT_STATE_PRINT_CMD:
-                return s->index < g_ncmds && (s->length == 0 || s->length == 1) &&
-                       (s->cmd_type == CAT_CMD_TYPE_NONE || (s->cmd_type >= CAT_CMD_TYPE_RUN && s->cmd_type <= CAT_CMD_TYPE__TOTAL_NUM));
+                if (!(s->index < g_ncmds && (s->length == 0 || s->length == 1) &&
+                      (s->cmd_type == CAT_CMD_TYPE_NONE || (s->cmd_type >= CAT_CMD_TYPE_RUN && s->cmd_type <= CAT_CMD_TYPE__TOTAL_NUM))))
+                        return 0;
+                /* a command whose forms are being listed is visible; a test-only one is asked for its '=?' form only */
+                if (s->cmd_type != CAT_CMD_TYPE_NONE && p_disabled(s->index))
+                        return 0;
+                if ((s->cmd_type == CAT_CMD_TYPE_RUN || s->cmd_type == CAT_CMD_TYPE_READ || s->cmd_type == CAT_CMD_TYPE_WRITE) && h_cmds[s->index].only_test)
+                        return 0;
+                return 1;
         default:
                 return 0;
         }
